@@ -3,6 +3,7 @@ package types
 import (
 	"fmt"
 	"reflect"
+	"strconv"
 )
 
 // JSONValue is an internal type used in storing various types, for converting any type to JSON supported type.
@@ -18,6 +19,16 @@ func ConvertValueList(values []interface{}) ([]interface{}, error) {
 		jsonValues = append(jsonValues, ConvertToJSONSupportedValue(val))
 	}
 	return jsonValues, nil
+}
+
+// float32ToFloat64 converts a float32 to the float64 with the same shortest decimal representation,
+// which is the number its JSON encoding carries to the other replicas (float64(0.1f) is 0.10000000149011612).
+func float32ToFloat64(f float32) float64 {
+	f64, err := strconv.ParseFloat(strconv.FormatFloat(float64(f), 'g', -1, 32), 64)
+	if err != nil {
+		return float64(f)
+	}
+	return f64
 }
 
 // IsNil returns true if the value is nil, or a nil pointer, slice or map, i.e., it has no JSON value other than null.
@@ -102,11 +113,11 @@ func ConvertToJSONSupportedValue(t interface{}) JSONValue {
 		var f64 float64
 		switch vv := v.(type) {
 		case float32:
-			f64 = float64(vv)
+			f64 = float32ToFloat64(vv)
 		case float64:
 			f64 = vv
 		case *float32:
-			f64 = float64(*vv)
+			f64 = float32ToFloat64(*vv)
 		case *float64:
 			f64 = *vv
 		}
